@@ -286,7 +286,19 @@ func c12d(c *Ctx) {
 			}
 		}
 	})
-	c.Check(ok && okStore, "mapOption.Set", c.W.FuncPos(fn), "K=V split at the first '=' (value may contain '='), anything else rejected", "-s values are not parsed with strings.SplitN(value, \"=\", 2) and a length check")
+	// second accepted shape: i := strings.Index(value, "="); i < 0 rejected; key = value[:i], val = value[i+1:]
+	if !(ok && okStore) {
+		instrs(fn, func(in ssa.Instruction) {
+			if mu, isMU := in.(*ssa.MapUpdate); isMU {
+				k, v := c.term(fn, mu.Key), c.term(fn, mu.Value)
+				idx := `strings.Index($1,"=")`
+				if k == "$1[:"+idx+"]" && v == "$1["+idx+"+1:]" && hasLit(c.mustLits(fn, mu.Block()), "-("+idx+" < 0)") {
+					ok, okStore = true, true
+				}
+			}
+		})
+	}
+	c.Check(ok && okStore, "mapOption.Set", c.W.FuncPos(fn), "K=V split at the first '=' (value may contain '='), anything else rejected", "-s values are not split at the first '=' (strings.SplitN(value, \"=\", 2) with a length check, or strings.Index with a negative-index check)")
 }
 
 // ---- C13 -----------------------------------------------------------------------------------
